@@ -210,6 +210,35 @@ theorem atPos_bits_spec (b : BitBuffer) (p : Nat) (src : List Byte) (off len : N
   · simp only; exact hlen
   · intro j; simp only; exact hbits j
 
+/-- `with_write_position_at(p, |b| b.write_bit(x))` — the crate's own use (presence and extension
+    bits) — inside the written bits: exactly bit `p` becomes `x` -/
+theorem patchBit_spec (b : BitBuffer) (p : Nat) (x : Bool) (h : b.Inv) (hp : p < b.wp) :
+    ∃ b', b.patchBit p x = ok b' ∧ b'.Inv ∧ b'.wp = b.wp ∧ b'.rp = b.rp ∧
+      b'.buffer.length = b.buffer.length ∧
+      ∀ j, getBit b'.buffer j = if j = p then x else getBit b.buffer j := by
+  obtain ⟨h1, h2⟩ := h
+  have hcap : b.wp ≤ b.buffer.length * 8 := by omega
+  have hfit : ({ b with wp := p } : BitBuffer).wp + 1 ≤ ({ b with wp := p } : BitBuffer).buffer.length * 8 := by
+    simp only; omega
+  unfold patchBit Outcome.assert
+  have hpos : p ≤ b.buffer.length * 8 := by omega
+  simp only [hpos, decide_true, ite_true, Outcome.bind_ok]
+  unfold writeBit sliceWriteBit
+  rw [byte_len_eq, ensure_of_fits _ _ hfit]
+  have hlt : ¬ (p + 1 > b.buffer.length * 8) := by omega
+  simp only [hlt, ite_false, Outcome.bind_ok, Outcome.pure_def]
+  have hlen : (setBit b.buffer p x).length = b.buffer.length := by simp [setBit]
+  refine ⟨_, rfl, ⟨?_, ?_⟩, rfl, rfl, ?_, ?_⟩
+  · simp only; rw [hlen]; exact h1
+  · intro j hj
+    simp only at hj ⊢
+    rw [getBit_setBit _ _ _ _ (by omega)]
+    have : j ≠ p := by omega
+    simp only [this, ite_false]
+    exact h2 j hj
+  · simp only; exact hlen
+  · intro j; simp only; exact getBit_setBit _ _ _ _ (by omega)
+
 /-! ### reading -/
 
 theorem readBit_spec (b : BitBuffer) (h : b.wp ≤ b.buffer.length * 8) :
